@@ -13,7 +13,7 @@ use std::sync::{Arc, Mutex};
 pub fn def() -> PropDef {
     PropDef {
         id: "C17",
-        rule: "histories: for a corpus of (function, argument) items over parse/uncompress/compress/rename/RR::from_string, the result of every item computed in a fresh process is the baseline; every ordered pair (and, thorough, triple) g(y); f(x) run back to back on one thread must reproduce f(x)'s baseline. schedules: 2 (thorough: also 3) real threads each running one item with the library's yield points (per name emitted / copied / replaced, per record parsed) as scheduling points, every interleaving with at most 2 (thorough 3) preemptions; randomness: empty()/query() twice differ at most in the id. supplementary, outside the exhaustive claim: the concurrent items on 4 free-running threads (sampling; reaches windows without a yield point). distinct classes = (kind, function pair, outcome kinds)",
+        rule: "histories: for a corpus of (function, argument) items over parse/uncompress/compress/rename/RR::from_string/raw_name_from_str/query, the result of every item computed in a fresh process is the baseline; every ordered pair (and, thorough, triple) g(y); f(x) run back to back on one thread must reproduce f(x)'s baseline. schedules: 2 (thorough: also 3) real threads each running one item with the library's yield points (per name emitted / copied / replaced, per record parsed) as scheduling points, every interleaving with at most 2 (thorough 3) preemptions; randomness: empty()/query() twice differ at most in the id. supplementary, outside the exhaustive claim: the concurrent items on 4 free-running threads (sampling; reaches windows without a yield point). distinct classes = (kind, function pair, outcome kinds)",
         run,
         replay,
         bounds: |t| json!({"corpus_items": items().len(), "concurrent_items": conc_items().len(), "history_length": t.pick(2, 3), "threads": t.pick(vec![2], vec![2, 3]), "preemption_bound": t.pick(2, 3), "max_executions_per_tuple": 30000}),
@@ -40,6 +40,10 @@ pub enum Item {
     Compress(Vec<u8>),
     Rename(Vec<u8>, Name, Name, bool),
     FromString(String),
+    /// raw_name_from_str(text, zone)
+    NameFromStr(Vec<u8>, Option<Name>),
+    /// query(name, A, IN) without its transaction id
+    Query(Vec<u8>),
 }
 
 impl Item {
@@ -50,6 +54,8 @@ impl Item {
             Item::Compress(_) => "compress",
             Item::Rename(..) => "rename",
             Item::FromString(_) => "from_string",
+            Item::NameFromStr(..) => "raw_name_from_str",
+            Item::Query(_) => "query",
         }
     }
     fn to_json(&self) -> Value {
@@ -59,6 +65,8 @@ impl Item {
             Item::Compress(x) => json!({"f": "compress", "x": hex(x)}),
             Item::Rename(x, t, s, m) => json!({"f": "rename", "x": hex(x), "t": hex(t), "s": hex(s), "m": m}),
             Item::FromString(t) => json!({"f": "from_string", "text": t}),
+            Item::NameFromStr(t, z) => json!({"f": "raw_name_from_str", "x": hex(t), "z": z.as_ref().map(|z| hex(z))}),
+            Item::Query(t) => json!({"f": "query", "x": hex(t)}),
         }
     }
     fn from_json(v: &Value) -> Item {
@@ -68,6 +76,8 @@ impl Item {
             "uncompress" => Item::Uncompress(h("x")),
             "compress" => Item::Compress(h("x")),
             "rename" => Item::Rename(h("x"), h("t"), h("s"), v["m"].as_bool().unwrap_or(false)),
+            "raw_name_from_str" => Item::NameFromStr(h("x"), v["z"].as_str().map(unhex)),
+            "query" => Item::Query(h("x")),
             _ => Item::FromString(v["text"].as_str().unwrap_or("").to_string()),
         }
     }
@@ -106,6 +116,18 @@ fn eval_inner(it: &Item) -> String {
         },
         Item::FromString(t) => match r#gen::RR::from_string(t) {
             Ok(rr) => format!("ok:{}", hex(&rr.packet)),
+            Err(e) => format!("err:{}", e),
+        },
+        Item::NameFromStr(t, z) => match r#gen::raw_name_from_str(t, z.as_deref()) {
+            Ok(n) => format!("ok:{}", hex(&n)),
+            Err(e) => format!("err:{}", e),
+        },
+        Item::Query(t) => match r#gen::query(t, Type::A, Class::IN) {
+            Ok(p) => format!("ok:{}:{:?}", hex(&p.packet()[2..]), {
+                let mut s = crate::bfs_model::snap(&p);
+                s.packet = None;
+                s
+            }),
             Err(e) => format!("err:{}", e),
         },
     });
@@ -233,6 +255,19 @@ pub fn items() -> Vec<Item> {
         v.push(Item::FromString("ok.example 7 IN TXT \"hello\"".to_string()));
         v.push(Item::FromString("ok.example 7 IN MX 5 mail.ok.example".to_string()));
     }
+    // host-name conversion and query synthesis: case twins, zone / no zone, failures between successes
+    {
+        let zone = Some(nm("example.com"));
+        for (t, z) in [("www", zone.clone()), ("WWW", zone.clone()), ("www.", zone.clone()), ("www", None), ("a..b", None), ("www", Some(nm("other.org"))), ("", zone.clone()), ("mail.www", zone.clone())] {
+            v.push(Item::NameFromStr(t.as_bytes().to_vec(), z));
+        }
+        v.push(Item::NameFromStr(refmodel::text::name_with_wire_len(253).into_bytes(), None));
+        v.push(Item::NameFromStr((refmodel::text::name_with_wire_len(253) + ".x").into_bytes(), None));
+        v.push(Item::NameFromStr(b"www".to_vec(), zone));
+        for q in ["b.a", "B.A", "a..b", "b.a."] {
+            v.push(Item::Query(q.as_bytes().to_vec()));
+        }
+    }
     for t in ["x. 60 IN A 1.2.3.4", "a.b. 1 IN MX 10 mail.a.b.", "a. 1 IN SOA ns.a. admin.a. ( 1 2 3 4 5 )", "x. 0 IN TXT \"hello\\032world\"", "x. 1 IN DS 1 2 3 abcd", "x. 1 IN AAAA 2001:db8::1", "x. 1 IN NS", "", "x. 4294967296 IN A 1.2.3.4", "b.a 5 in cname c.b.a"] {
         v.push(Item::FromString(t.to_string()));
     }
@@ -268,6 +303,10 @@ pub fn conc_items() -> Vec<Item> {
             encode(&m3, Strategy::Max)
         }),
         Item::FromString("a. 1 IN SOA ns.a. admin.a. ( 1 2 3 4 5 )".to_string()),
+        Item::FromString("B.a. 2 IN MX 5 Mail.b.a.".to_string()),
+        Item::NameFromStr(b"www".to_vec(), Some(nm("b.a"))),
+        Item::NameFromStr(b"Mail.b.a.".to_vec(), None),
+        Item::Query(b"b.a".to_vec()),
     ]
 }
 
